@@ -1,8 +1,11 @@
 package props
 
 import (
+	"errors"
 	"fmt"
+	"github.com/tigerwill90/fox"
 	"strings"
+	"verif/harness/world"
 
 	"verif/harness/sim"
 )
@@ -96,6 +99,47 @@ func runConc(src sim.Source, o Opts, res *Result, plan concPlan) {
 			cw.runProgram(s, i, progs[i], logs[i])
 		})
 	}
+	// a neighbour: a second, unrelated Router in the same process, written by its own task. Routers share nothing, so
+	// its answers depend on its own history only - and in HB mode any memory the two routers share shows up as a race
+	var neighbourFail string
+	if src.Intn("neighbour", 4) == 0 {
+		res.inc("runs_with_a_second_router")
+		if w2, err := world.Build(cw.cfg); err == nil {
+			s.Go("neighbour", func(*sim.Task) {
+				fail := func(format string, args ...any) {
+					if neighbourFail == "" {
+						neighbourFail = fmt.Sprintf(format, args...)
+					}
+				}
+				r := w2.R
+				for i, pat := range []string{"/n/a", "/n/{x}", "/n/{x}/b", "/m/*{y}"} {
+					if _, err := r.Handle("GET", pat, world.Handler(500+i)); err != nil {
+						fail("Handle %s on the second router: %v", pat, err)
+					}
+					s.Yield(sim.PtUser)
+				}
+				_, err := r.Handle("GET", "/n/{z}", world.Handler(510))
+				var ce *fox.RouteConflictError
+				if !errors.As(err, &ce) || len(ce.Matched) != 2 {
+					fail("conflicting Handle on the second router returned %v (want a conflict naming its 2 routes below /n/{x})", err)
+				}
+				s.Yield(sim.PtUser)
+				_ = r.Updates(func(txn *fox.Txn) error {
+					if err := txn.Truncate("GET"); err != nil {
+						fail("Truncate on the second router: %v", err)
+					}
+					if n := txn.Len(); n != 0 {
+						fail("second router: Len() = %d after Truncate(GET) of its only method", n)
+					}
+					return errInjected
+				})
+				s.Yield(sim.PtUser)
+				if n := r.Len(); n != 4 {
+					fail("second router: Len() = %d after an aborted truncate, want 4", n)
+				}
+			})
+		}
+	}
 	out := s.Run()
 	res.Leaked = res.Leaked || s.Leaked()
 	res.Steps = s.Steps
@@ -156,6 +200,11 @@ func runConc(src sim.Source, o Opts, res *Result, plan concPlan) {
 			}
 			return
 		}
+	}
+	if neighbourFail != "" {
+		describe()
+		res.fail(res.Case["prop"].(string)+"/second-router", "%s", neighbourFail)
+		return
 	}
 	// non-triviality: a switch inside a writer's critical section or across a reader's load
 	crit := s.PointParks[sim.PtLocked] + s.PointParks[sim.PtCommit] + s.PointParks[sim.PtStored] + s.PointParks[sim.PtAfterLoad] + s.PointParks[sim.PtTxnFn] + s.PointParks[sim.PtAbort] + s.PointParks[sim.PtBeforeUnlock] + s.PointParks[sim.PtBeforeStore]
